@@ -235,6 +235,50 @@ def install_shims(np=True, pickle=True, pool=True):
     core.ProfilingDataset.__repr__ = lambda self: '<profiling dataset>'
 
 
+# ------------------------------------------------------------------ memoised helpers (functools.lru_cache / functools.cache)
+_MEMOS = []
+_REWRAPPED = [False]
+
+
+def _path_memo(fn):
+    """plain-Python stand-in for functools.lru_cache: CrossHair calls lru_cache-wrapped functions *without* their cache, which makes
+    state kept in a memoised helper invisible; this memo is visible to the tracer and is emptied at the beginning of every path"""
+    cache = {}
+    _MEMOS.append(cache)
+
+    def wrapper(*a, **kw):
+        key = (a, tuple(sorted(kw.items())))
+        if key in cache:
+            return cache[key]
+        r = fn(*a, **kw)
+        cache[key] = r
+        return r
+    wrapper.__wrapped__ = fn
+    wrapper.cache_clear = cache.clear
+    return wrapper
+
+
+def begin_path():
+    """called by every generated condition before the harness body (symbolic mode)"""
+    if not SYMBOLIC:
+        return
+    if not _REWRAPPED[0]:
+        _REWRAPPED[0] = True
+        import functools
+        import sys
+        for modname in [m for m in list(sys.modules) if m == 'lazy_dataset' or m.startswith('lazy_dataset.')]:
+            mod = sys.modules[modname]
+            for k, v in list(vars(mod).items()):
+                if isinstance(v, functools._lru_cache_wrapper):
+                    setattr(mod, k, _path_memo(v.__wrapped__))
+                elif isinstance(v, type) and getattr(v, '__module__', '') == modname:
+                    for ak, av in list(vars(v).items()):
+                        if isinstance(av, functools._lru_cache_wrapper):
+                            setattr(v, ak, _path_memo(av.__wrapped__))
+    for c in _MEMOS:
+        c.clear()
+
+
 def install_db_shims():
     """symbolic mode only: CrossHair's set() patch breaks the unbound `set.intersection(a, b)` call in database.get_examples"""
     if not SYMBOLIC:
